@@ -717,16 +717,54 @@ type vfCCase struct {
 
 func vfGenC(t *rapid.T) vfCCase {
 	c := vfCCase{N: rapid.IntRange(1, 24).Draw(t, "n"), ExecMine: rapid.Bool().Draw(t, "execMine"), Cycles: rapid.IntRange(0, 3).Draw(t, "cycles")}
-	kinds := []string{"plot", "mine", "mine", "stop", "stop", "stop", "remove", "delete", "ids", "infos", "qualities", "bulk:mine", "bulk:stop", "bulk:plot"}
+	kinds := []string{"plot", "mine", "mine", "stop", "stop", "stop", "remove", "delete", "ids", "infos", "qualities", "bulk:mine", "bulk:stop", "bulk:plot", "qreader", "qreader1", "preader", "flood:qreaders", "flood:preaders"}
 	nc := rapid.IntRange(2, 6).Draw(t, "callers")
+	floods := 0
 	for i := 0; i < nc; i++ {
 		var ops []vfCOp
 		for j, n := 0, rapid.IntRange(1, 12).Draw(t, "ops"); j < n; j++ {
-			ops = append(ops, vfCOp{K: rapid.SampledFrom(kinds).Draw(t, "k"), S: rapid.IntRange(0, c.N-1).Draw(t, "s"), Flags: rapid.IntRange(1, 15).Draw(t, "flags")})
+			op := vfCOp{K: rapid.SampledFrom(kinds).Draw(t, "k"), S: rapid.IntRange(0, c.N-1).Draw(t, "s"), Flags: rapid.IntRange(1, 15).Draw(t, "flags")}
+			if strings.HasPrefix(op.K, "flood:") {
+				if floods > 0 {
+					op.K = "qreader" // one flood per program is enough (each is 33-160 requests over all spaces)
+				}
+				floods++
+			}
+			ops = append(ops, op)
 		}
 		c.Callers = append(c.Callers, ops)
 	}
 	return c
+}
+
+// vfWithCtx runs a reader request under a context that ends when the request is over (the reader's watcher
+// goroutine lives as long as its context)
+func vfWithCtx(f func(context.Context)) {
+	cx, cancel := context.WithCancel(context.Background())
+	defer cancel()
+	f(cx)
+}
+
+func vfDrainQ(r engine.QualityReader, err error) {
+	if err != nil || r == nil {
+		return
+	}
+	for {
+		if _, err := r.Read(); err != nil {
+			return
+		}
+	}
+}
+
+func vfDrainP(r engine.ProofReader, err error) {
+	if err != nil || r == nil {
+		return
+	}
+	for {
+		if _, err := r.Read(); err != nil {
+			return
+		}
+	}
 }
 
 func vfCRun(c vfCCase, ctx *vlib.Ctx) *vlib.Failure {
@@ -760,7 +798,7 @@ func vfCRunOnce(c vfCCase, ctx *vlib.Ctx) *vlib.Failure {
 		}
 		fmu.Unlock()
 	}
-	var goFlag int32
+	var goFlag, floods int32
 	var wg sync.WaitGroup
 	for ci, ops := range c.Callers {
 		wg.Add(1)
@@ -785,6 +823,36 @@ func vfCRunOnce(c vfCCase, ctx *vlib.Ctx) *vlib.Failure {
 					sk.WorkSpaceInfos(engine.WorkSpaceStateFlags(op.Flags))
 				case op.K == "qualities":
 					sk.GetQualities(context.Background(), engine.SFMining, pocutil.Hash{2})
+				case op.K == "qreader":
+					vfWithCtx(func(cx context.Context) {
+						vfDrainQ(sk.GetQualitiesReader(cx, engine.WorkSpaceStateFlags(op.Flags), pocutil.Hash{3}))
+					})
+				case op.K == "qreader1":
+					vfWithCtx(func(cx context.Context) { vfDrainQ(sk.GetQualityReader(cx, sid, pocutil.Hash{4})) })
+				case op.K == "preader":
+					vfWithCtx(func(cx context.Context) {
+						vfDrainP(sk.GetProofsReader(cx, ids, pocutil.Hash{5}, make([]uint32, len(ids))))
+					})
+				case strings.HasPrefix(op.K, "flood:"):
+					// many reader requests in flight at once (every block asks all spaces; a pool or the API may be hit
+					// by many clients): 33..160, around and above the keeper's worker pool size
+					n := 33 + (op.Flags*17+op.S*5)%128
+					var fw sync.WaitGroup
+					for i := 0; i < n; i++ {
+						fw.Add(1)
+						go func() {
+							defer fw.Done()
+							vfWithCtx(func(cx context.Context) {
+								if op.K == "flood:qreaders" {
+									vfDrainQ(sk.GetQualitiesReader(cx, engine.SFAll, pocutil.Hash{6}))
+								} else {
+									vfDrainP(sk.GetProofsReader(cx, ids, pocutil.Hash{7}, make([]uint32, len(ids))))
+								}
+							})
+						}()
+					}
+					fw.Wait()
+					atomic.AddInt32(&floods, 1)
 				case strings.HasPrefix(op.K, "bulk:"):
 					sk.ActOnWorkSpaces(engine.WorkSpaceStateFlags(op.Flags), vfAction(strings.TrimPrefix(op.K, "bulk:")))
 				default:
@@ -835,15 +903,16 @@ func vfCRunOnce(c vfCCase, ctx *vlib.Ctx) *vlib.Failure {
 		return vlib.Failf("goroutines-leaked", "%d goroutines after Stop, %d before the case:\n%s", n, baseline, vfKeeperStacks())
 	}
 	ctx.LabelN("callers", len(c.Callers))
-	if len(c.Callers) >= 2 && (c.ExecMine || c.Cycles > 0) {
+	ctx.LabelN("reader-floods", int(floods))
+	if len(c.Callers) >= 2 && (c.ExecMine || c.Cycles > 0 || floods > 0) {
 		ctx.NonTrivial()
 	}
 	return nil
 }
 
 var vfCSpec = vlib.Spec[vfCCase]{
-	Prop: "C13", Name: "skchia-concurrent", NoShrink: true, Scale: 1, Min: 16,
-	Rule: "chia-plot keeper on a scripted plot backend with 1-24 spaces (configured to mine or not), 2-6 concurrent callers with 1-12 operations each from {plot, mine, stop, remove, delete, queries, GetQualities, bulk actions}, released when Start() has returned, 0-3 keeper stop/start cycles meanwhile; oracle: every call and every Stop()/Start() returns, nothing panics (recover in the callers, process death otherwise), goroutines return to the baseline; non-trivial = >=2 callers with a mine-configured keeper or at least one stop/start cycle; distinct = distinct case JSON",
+	Prop: "C13", Name: "skchia-concurrent", NoShrink: true, Scale: 0.4, Min: 16,
+	Rule: "chia-plot keeper on a scripted plot backend with 1-24 spaces (configured to mine or not), 2-6 concurrent callers with 1-12 operations each from {plot, mine, stop, remove, delete, queries, GetQualities, bulk actions, quality/proof readers drained to EOF, floods of 33-160 simultaneous reader requests}, released when Start() has returned, 0-3 keeper stop/start cycles meanwhile; oracle: every call and every Stop()/Start() returns, nothing panics (recover in the callers, process death otherwise), goroutines return to the baseline; non-trivial = >=2 callers with a mine-configured keeper, a stop/start cycle or a reader flood; distinct = distinct case JSON",
 	Gen:  vfGenC, Run: vfCRun,
 }
 
